@@ -68,23 +68,33 @@ def Call.isWrite : Call → Bool
   | .writeHeader _ | .setHeader _ _ | .writeBody _ => true
   | _ => false
 
+/-- a `BatchDeliver` whose payload the predicate rejects -/
+def Call.deliverBad (ok : J → Bool) : Call → Bool
+  | .batchDeliver p _ => !ok p
+  | _ => false
+
+def anyPayload : J → Bool := fun _ => true
+def noPayload : J → Bool := fun _ => false
+
 /-- held = ids currently locked by the request.  Violations: locking an id already held (when `reentry`
 is checked), unlocking an id not held, a Database access while nothing is held — and, when `allowWrite` is
 off, any write to the ResponseWriter or authentication call (used to show that the side-effect code never
-touches the response: C10). -/
-def lockMonG (reentry allowWrite : Bool) : Mon where
+touches the response: C10); `deliverOK` constrains the payloads
+handed to `BatchDeliver` (`noPayload`: nothing is delivered at all — C05; "no bto/bcc" — C03). -/
+def lockMonG (reentry allowWrite : Bool) (deliverOK : J → Bool) : Mon where
   S := List Iri
   step held c r :=
     if !allowWrite && (c.isWrite || c.isAuth) then none else
+    if c.deliverBad deliverOK then none else
     match c with
     | .lock k => if reentry && held.contains k then none else if respOk (.lock k) r then some (k :: held) else some held
     | .unlock k => if held.contains k then some (removeFirst k held) else none
     | c => if c.isDbAccess && held.isEmpty then none else some held
 
 /-- the full lock discipline of C09 -/
-abbrev lockMon : Mon := lockMonG true true
+abbrev lockMon : Mon := lockMonG true true anyPayload
 /-- C09 without the "never locked again while held" clause (balance, no stray Unlock, access under lock) -/
-abbrev balanceMon : Mon := lockMonG false true
+abbrev balanceMon : Mon := lockMonG false true anyPayload
 
 /-! ### C07: nothing before authentication (and, for inbox POSTs, the block check) -/
 
